@@ -283,6 +283,15 @@ func (w *keyWorld) message(r *gen.Rand, server string, signWith []string, kind s
 		msg = []byte("{not json")
 		q.keyIDs, q.sigOK, q.broken = nil, map[string]ed25519.PublicKey{}, true
 	}
+	if len(signWith) > 0 && !q.broken && kind != "signed-by-other-server" && r.Chance(0.2) {
+		// something of another entity under "signatures" that is no map of signatures at all: none of the named
+		// server's business
+		v := ref.MustParse(msg)
+		if sigs := v.Get("signatures"); sigs != nil && sigs.K == ref.Obj {
+			sigs.Set("elsewhere.example", gen.Pick(r, []*ref.Value{ref.I(123), ref.S("x"), ref.A(), ref.NullV(), ref.O("ed25519:z", ref.I(5))}))
+			msg = gen.Plain().Bytes(v)
+		}
+	}
 	q.msg = msg
 	return q
 }
